@@ -183,13 +183,13 @@ DONE = {
   'binary64, so the regenerated parser (parse_field over the regenerated column table) reads from the exported line of any fitting row each '
   'coordinate within half a unit of the printed precision and occupancy/B-factor within 0.005; composed into the whole-row round trip '
   '(parse_record of the exported line = the row itself in every integer/text attribute, the printed decimals in the numeric ones) for rows with '
-  'strip-stable text and a non-empty chain, and refuted for an empty chain (F24). The comparison up to binary64 (approx_row), re-export '
+  'strip-stable text and a non-empty chain, carried to the property\'s own comparison (approx_row) with a proved 2^-53 bound on the binary64 '
+  'rounding of the re-read decimal, and refuted for an empty chain (F24). Re-export '
   'and canonical-record reproduction are decided on every run by the executable Coq specification applied to the implementation output '
   '(threshold windows, wide tables, bundled files).',
   'regenerated Gallina model + Coq theorems (digit-length lemmas, lra cell decomposition) + executable Coq spec applied to implementation output',
   'CPython str.format / float() modelled in PyLib.v (fixed-point formatting correctly rounded on the exact binary value). PARTIAL: the closed form of '
-  '"as many decimals as fit" (max_fit), '
-  'the final binary64 rounding bound and idempotence of re-export are checked by the executable spec and by implementation = model, not proved. '
+  '"as many decimals as fit" (max_fit; proved in the direction the round trip needs) and idempotence of re-export are checked by the executable spec and by implementation = model, not proved. '
   'Known finding F24 (empty chain identifier: exported, not re-readable; C02_blank_chain_refuted). '
   'Print Assumptions: closed under the global context.'),
  'C01': ('§5.C01',
